@@ -2,14 +2,14 @@ SPECIFICATION Spec
 CONSTANTS
   Node = {n1, n2, n3}
   MaxTerm = 2
-  MaxLog = 4
+  MaxLog = 3
   NonCmdKinds = {}
-  WarmStart = TRUE
-  UpgradeStrong = FALSE
+  WarmStart = FALSE
+  UpgradeStrong = TRUE
   VerifyQuorum = TRUE
   RecheckTerm = TRUE
   StrongThroughLog = TRUE
   SignalConfig = TRUE
   SignalBarrier = TRUE
 SYMMETRY Sym
-INVARIANTS ReadLin
+INVARIANTS StateMachineSafety OneLeaderPerTerm ReadLin NoStuckRead ServedAfterProtocol
